@@ -1,5 +1,5 @@
 (* C04 -- payload and line-length limits are enforced exactly and before buffering. *)
-From MH Require Import proofs.Limits_proofs proofs.Impl_proofs.
+From MH Require Import proofs.Limits_proofs proofs.Impl_proofs proofs.ServerRead_proofs.
 
 (* at the blank line that ends a header block, for EVERY limit L (0, 2^32-1 and beyond included)
    and every declared length: size-limit error reporting (L, n) iff n > L -- and the decision needs
@@ -65,9 +65,45 @@ Example C04_ex_line :
   take_line 8 (B"abcdef" ++ CRLF ++ B"x") = LLine (B"abcdef") (B"x") /\ take_line 8 (B"abcdefg" ++ CRLF ++ B"x") = LTooLong.
 Proof. vm_compute. auto. Qed.
 
+(* server clauses: through HttpServer::requests the read path IS the specification parser with the
+   connection's limit (c_pmax, fixed at accept time: see C10_refuse_iff), so the size rule above
+   decides; on SizeLimitExceeded L n the queued reply is bad_request_response (SizeLimitExceeded L n),
+   whose body names both numbers (display_req_err, literal-tied) *)
+Theorem C04_server_transfer : forall BUF, (2 <= BUF)%nat -> N.of_nat BUF < U32_LIMIT ->
+  forall w toks fd w' ys x ph,
+  Inv BUF w toks -> alookup fd (w_conns w) = Some x -> CInv BUF (sc_conn x) ph ->
+  k_tosrv (client_of w (sc_client x)) <> [] ->
+  handle_event BUF w (EvIn fd) = inl (w', ys) ->
+  let c := sc_conn x in
+  let t := k_tosrv (client_of w (sc_client x)) in
+  let d := firstn (Nat.min (BUF - length (c_win c)) (length t)) t in
+  d <> [] /\
+  exists y, alookup fd (w_conns w') = Some y /\ sc_gid y = sc_gid x /\ sc_client y = sc_client x /\
+    k_tosrv (client_of w' (sc_client x)) = skipn (length d) t /\
+  match runT BUF (c_pmax c) ph (c_win c ++ d) [] with
+  | RMore ph' carry outs =>
+      CInv BUF (sc_conn y) ph' /\ c_win (sc_conn y) = carry /\
+      unsent (sc_conn y) = unsent c ++ flat_map serialize (conts_of outs) /\
+      ys = map (fun r => (fd, sc_gid x, r)) (c_parsed c ++ reqs_of outs (c_files c))
+  | RErr outs e =>
+      CInv BUF (sc_conn y) PLine /\ c_win (sc_conn y) = [] /\
+      unsent (sc_conn y) = unsent c ++ flat_map serialize (conts_of outs ++ [bad_request_response e]) /\
+      ys = []
+  | ROutOfFuel => False
+  end.
+Proof. exact server_read_exact. Qed.
+
+Theorem C04_reply_names_both : forall l n,
+  rs_body (bad_request_response (SizeLimitExceeded l n)) =
+  Some ((B"{ ""error"": ""Request payload with size ") ++ dec n ++ B" is larger than the limit of " ++ dec l
+        ++ B" allowed by server." ++ [LF] ++ B"All previous unanswered requests will be dropped."" }").
+Proof. exact reply_names_both. Qed.
+
 Print Assumptions C04_size_iff.
 Print Assumptions C04_within_limit_accepted.
 Print Assumptions C04_body_bound.
 Print Assumptions C04_line_iff.
 Print Assumptions C04_unterminated_line_iff.
 Print Assumptions C04_transfer.
+Print Assumptions C04_server_transfer.
+Print Assumptions C04_reply_names_both.
